@@ -108,7 +108,7 @@ static std::string run(std::vector<std::string> const &w)
 {
 	if(w.size()>=4 && w[0]=="mp") return run_mp(w);
 	if(w.size()==2 && w[0]=="ct") return run_ct(w);
-	if(w.size()>=7 && w[0]=="rq") return c12_run_request(w,tmpdir_ok,tmpdir_bad);
+	if(w.size()>=10 && w[0]=="rq") return c12_run_request(w,tmpdir_ok,tmpdir_bad);
 	if(w.size()==2 && w[0]=="form") return c12_run_form(w);
 	return "bad-op";
 }
@@ -120,6 +120,7 @@ int main()
 	tmpdir_ok=std::string(cwd)+"/c12_uploads";
 	mkdir(tmpdir_ok.c_str(),0700);
 	tmpdir_bad=std::string(cwd)+"/c12_no_such_dir/x";
+	setenv("TEMP",tmpdir_ok.c_str(),1);   // default uploads path of the service
 	int rc=vh::drive(run);
 	// every temporary file must be gone
 	int left=0;
